@@ -21,6 +21,7 @@ func init() { Registry["C07"] = runC07 }
 func runC07(c *vf.Ctx) {
 	c07Stress(c)
 	c07NoWait(c)
+	c07MissVsRefresh(c)
 }
 
 func vecKey(v []int) string {
@@ -410,5 +411,121 @@ func c07NoWait(c *vf.Ctx) {
 			w["lookups_completed_before_release"] = did.Load()
 			c.Sample(sub, w)
 		}
+	}
+}
+
+
+// a lookup miss whose source answers late (the answer was decided when the request arrived) overlaps a refresh that
+// learns something newer about the same provider: whatever order the two finish in, no reader may see the provider
+// go back to the older record or disappear again
+func c07MissVsRefresh(c *vf.Ctx) {
+	const sub = "late-miss-answer-vs-refresh"
+	if !c.Active(sub) {
+		return
+	}
+	n := c.N(40, 800)
+	pool := pcPeerPool()
+	for i := 0; i < n; i++ {
+		if !c.Mine(sub, i) {
+			continue
+		}
+		r := c.Rand(sub, i)
+		scenario := []string{"late-answer-is-an-older-record", "late-answer-is-not-found"}[i%2]
+		npop := 3 + r.Intn(20)
+		c.Cur(sub, i, fmt.Sprintf("%s pop=%d", scenario, npop))
+		src := newScriptSource("src0")
+		src.answerAtCall = true
+		for _, p := range pool[:npop] {
+			src.set(p, 1)
+		}
+		X := pool[100+i%20]
+		if scenario == "late-answer-is-an-older-record" {
+			src.set(X, 1)
+		}
+		// (no preload: X is not cached although the source may report it)
+		pc, err := pcache.New(pcache.WithSource(src), pcache.WithTTL(time.Hour), pcache.WithRefreshInterval(0), pcache.WithPreload(false))
+		if err != nil {
+			c.Fail(sub, i, "pcache-new", err.Error(), nil)
+			continue
+		}
+		gate := make(chan struct{})
+		entered := make(chan struct{}, 1)
+		src.mu.Lock()
+		src.onFetch = func(ctx context.Context, pid peer.ID) error {
+			if pid == X {
+				select {
+				case entered <- struct{}{}:
+				default:
+				}
+				<-gate
+			}
+			return nil
+		}
+		src.mu.Unlock()
+		var steps []string
+		wit := func() any { return map[string]any{"scenario": scenario, "population": npop, "steps": steps} }
+		// what a reader that only uses List sees of X (List never starts a source request)
+		seeX := func() (int, bool) {
+			for _, pi := range pc.List() {
+				if pi != nil && pi.AddrInfo.ID == X {
+					return versionOf(pi), true
+				}
+			}
+			return 0, false
+		}
+		missDone := make(chan struct{})
+		go func() { defer close(missDone); _, _ = pc.Get(context.Background(), X) }()
+		select {
+		case <-entered:
+		case <-time.After(20 * time.Second):
+			c.Inconclusive(sub, i, "miss-did-not-reach-the-source", "", nil)
+			close(gate)
+			continue
+		}
+		// the source learns something newer; a refresh is requested while the miss is outstanding
+		src.set(X, 2)
+		refreshDone := make(chan error, 1)
+		go func() { refreshDone <- pc.Refresh(context.Background()) }()
+		var refreshErr error
+		refreshed := false
+		select {
+		case refreshErr = <-refreshDone:
+			refreshed = true
+			steps = append(steps, "the refresh completed while the miss was still waiting for its source")
+		case <-time.After(30 * time.Millisecond):
+			steps = append(steps, "the refresh waits for the outstanding miss")
+		}
+		maxSeen, seenAny := seeX()
+		if seenAny {
+			steps = append(steps, fmt.Sprintf("a reader sees X at v%d before the miss's answer arrives", maxSeen))
+			c.Inc("newer_record_visible_before_late_answer")
+		}
+		close(gate)
+		<-missDone
+		if !refreshed {
+			select {
+			case refreshErr = <-refreshDone:
+			case <-time.After(30 * time.Second):
+				c.Fail(sub, i, "refresh-did-not-return-after-miss", "", wit())
+				continue
+			}
+		}
+		if refreshErr != nil {
+			c.Fail(sub, i, "refresh-error", refreshErr.Error(), wit())
+		}
+		v, ok := seeX()
+		steps = append(steps, fmt.Sprintf("after both finished a reader sees X present=%v v%d", ok, v))
+		if seenAny && !ok {
+			c.Fail(sub, i, "cached-provider-reported-missing", "X was listed, and is no longer after the late answer of the miss arrived", wit())
+		} else if seenAny && v < maxSeen {
+			c.Fail(sub, i, "reader-saw-older-record", fmt.Sprintf("X v%d after v%d", v, maxSeen), wit())
+		}
+		// the refresh completed without error after the source had X at v2
+		if refreshErr == nil && (!ok || v != 2) {
+			c.Fail(sub, i, "stale-record-after-refresh-overlapping-a-late-miss-answer", fmt.Sprintf("present=%v v%d, the source reported v2 before the refresh was requested", ok, v), wit())
+		}
+		c.Eval(1)
+		c.Inc("late_miss_answer_cases")
+		c.Distinct(sub, scenario, fmt.Sprint(npop))
 	}
 }
